@@ -1,4 +1,5 @@
 import TcVerif.Proofs.SyncExec
+import TcVerif.Proofs.SrcTransform
 /-!
 # C01 — Replicas converge after any history of edits and syncs
 
@@ -107,5 +108,21 @@ def exRun : Sys :=
       .begin 0 false, .request 0 .none, .request 0 .none, .request 0 .none ]
 
 example : Reachable exRun := C01_exec_reachable _ _ _
+
+/-! ## tie to the source: the function `SyncOp::transform` as /repo defines it now
+
+`Src.transform` is regenerated from `src/server/op.rs` on every run (`tools/translate_src.py`). -/
+
+/-- the source's `SyncOp::transform` is the `transform` every theorem of C01–C04 is about -/
+theorem C01_source_transform_is_model (a b : SyncOp) : Src.transform a b = transform a b :=
+  src_transform_eq a b
+
+/-- **what the comment above `SyncOp::transform` promises** — `apply(apply(S, A), B') =
+    apply(apply(S, B), A')` — proved of the function the source defines, for every state and every
+    two operations valid in it; the transformed operations are valid where they are applied -/
+theorem C01_source_transform_diamond (S : DB) (a b : SyncOp) (ha : valid S a) (hb : valid S b) :
+    applyO (apply S a) (Src.transform a b).2 = applyO (apply S b) (Src.transform a b).1
+    ∧ validO (apply S a) (Src.transform a b).2 ∧ validO (apply S b) (Src.transform a b).1 := by
+  rw [src_transform_eq]; exact tp1 S a b ha hb
 
 end Tc
